@@ -40,7 +40,7 @@ HAZARDS = [
     # constant propagation
     'call_out', 'call_inout', 'loop_carried', 'accumulator', 'accumulator_varbound', 'cond_assign_in_loop',
     'save_init', 'while_literal_counter', 'select_assign', 'associate_alias', 'zero_trip_const',
-    'zero_trip_inner', 'exit_in_loop', 'cycle_in_loop', 'real_kind_fold', 'internal_present', 'unroll_cycle', 'unroll_exit',
+    'zero_trip_inner', 'exit_in_loop', 'cycle_in_loop', 'real_kind_fold', 'internal_present', 'unroll_cycle', 'unroll_exit', 'neg_folded_pow_base',
     'stale_second_pass', 'mixed_case_redef', 'member_basename', 'pointer_alias', 'neg_step_unroll',
     'while_zero_trip_assign', 'param_array_2d', 'nested_loop_prologue_outer', 'int_div_neg', 'array_const_elems',
     'simp_int_quot_sum', 'simp_int_quot_product', 'simp_int_quot_like_terms', 'simp_real_div_literal',
@@ -184,9 +184,11 @@ class CPGen:
             leaf, lb = rng.choice(self._int_leaves(const))
             return f'(-{leaf})', lb
         if kind == 'pow':
-            if ba > 1000:
-                a, ba = f'mod({a}, 13)', 13
-            return f'{_p(a)}**2', ba * ba
+            # base never folds to a literal: a folded negative base is printed without brackets (known finding,
+            # hazard neg_folded_pow_base)
+            if const:
+                return f'({a})', ba
+            return f'({self.ie_v(d - 1)})**2', IB * IB
         if kind == 'merge':
             b, bb = self.ie(d - 1, const)
             return f'merge({a}, {b}, {self.le(d - 1, const)})', max(ba, bb)
@@ -289,10 +291,9 @@ class CPGen:
         if kind == 'abs':
             return f'abs({a})', da
         if kind == 'pow':
-            desc = (2 * da[0], da[1] * da[1])
-            if self._bits(desc) > self.MAXBITS:
+            if const:
                 return f'abs({a})', da
-            return f'{_p(a)}**2', desc
+            return f'({self.re_v(d - 1)})**2', (0, 1.0)
         if kind == 'div':
             # numerator and denominator can never fold to a literal (simplify raises on literal / non-literal, C08)
             # (simplify distributes the quotient over the numerator's terms, so no literal / constant term there)
@@ -756,6 +757,8 @@ class CPGen:
             s = ['hz2 = k1', 'do i = 1, 3', '  if (k1 + i > 2) cycle', '  hz2 = hz2 + i', 'end do', f'oi({T1}) = hz2']
         elif hz == 'unroll_exit':
             s = ['hz2 = k1', 'do i = 1, 3', '  if (k1 + i > 2) exit', '  hz2 = hz2 + i', 'end do', f'oi({T1}) = hz2']
+        elif hz == 'neg_folded_pow_base':
+            s = ['hzr = 0.25_8', f'orr({R1}) = x1 + (hzr - 0.5_8)**2', 'hz1 = 2', f'oi({T1}) = k1 + (hz1 - 5)**2']
         elif hz == 'real_kind_fold':
             s = ['hzr = 0.1_8', f'orr({R1}) = hzr*3.0_8 + x1', f'orr({R2}) = 1.0_8 / 3.0_8 + hzr']
         elif hz == 'internal_present':
